@@ -12,6 +12,7 @@ logged beyond `s`; `TimerBy q k t` = a deferred add of key `k` is pending at a d
 `dueAt s t` = the deadline `AddAfter` uses for time `t` (never sooner than 1 s after the clock);
 `NoFault s` = no injected API fault pending.  Times are nanoseconds.
 -/
+import FurikoModel.Generated.Facts
 import FurikoModel.Proofs.JobCtlPlanPass
 
 namespace Furiko.Props.C12Plan
@@ -357,15 +358,17 @@ example :
 -- ================================================================ pending timeout
 
 /-- `pending_not_early`: every call appended by the pending-timeout step is a graceful pod delete
-of a task `t` of the list with `creation(t) + T ≤ clock`, `T > 0`, no running timestamp, no
-finish timestamp and no deletion timestamp, where `T = getPendingTimeout rj cfg` (job value if
+of a task `t` of the list that carries no deletion timestamp and whose JUDGED ref `pendRef rj t` — the ref
+recorded under the task's name in the status of `rj` (`jobutil.FindTaskRef`), the task's own ref when none
+is recorded (repair of F32) — has `creation + T ≤ clock`, `T > 0`, no running timestamp and no
+finish timestamp, where `T = getPendingTimeout rj cfg` (job value if
 set and `≥ 0`, else controller default, else 0: `Props/C12.pending_timeout_value`). -/
 theorem pending_not_early (s : Sys) (jo : JobObj) (rj : Job) (tasks : List Task) :
     ∀ c ∈ newCalls s (handlePendingTasks s jo rj tasks).1,
       IsPodDelete c false ∧
       ∃ T : Int, getPendingTimeout rj s.cfg = some T ∧ 0 < T ∧
-        ∃ t ∈ tasks, t.name = c.name ∧ t.ref.runningTimestamp = none ∧ t.ref.finishTimestamp = none ∧
-          (t.ref.creationTimestamp.getD zeroTime : Int) + T ≤ s.clock ∧ t.deletionTimestamp = none := by
+        ∃ t ∈ tasks, t.name = c.name ∧ (pendRef rj t).runningTimestamp = none ∧ (pendRef rj t).finishTimestamp = none ∧
+          ((pendRef rj t).creationTimestamp.getD zeroTime : Int) + T ≤ s.clock ∧ t.deletionTimestamp = none := by
   obtain ⟨l, e, hall, _⟩ := handlePendingTasks_ext s jo rj tasks
   intro c hc
   rw [e.newCalls] at hc
@@ -373,6 +376,57 @@ theorem pending_not_early (s : Sys) (jo : JobObj) (rj : Job) (tasks : List Task)
   unfold isPending at hp
   simp only [Bool.and_eq_true, Option.isNone_iff_eq_none] at hp
   exact ⟨⟨hv, hr, hf⟩, T, hT, hpos, t, ht, hn, hp.2, hp.1, hd, hdt⟩
+
+/-- the tie for the repair of F32 (facts regenerated from the source on every run,
+`harness/cmd/extract/jobctl_pending.go`): `handlePendingTasks` starts its loop with
+`ref := task.GetTaskRef(); if recorded := jobutil.FindTaskRef(rj, task); recorded != nil { ref = *recorded }`
+(`FindTaskRef` = the first ref of that name: `Model/Task.findTaskRef`, `Model/JobCtl.pendRef`), and
+`GetContainerStartTime` reads `State.Running`, `State.Terminated` AND `LastTerminationState.Terminated`
+(`Model/Task.containerStartTime`).  Reverting either hunk of the repair makes this theorem false. -/
+theorem source_judges_by_recorded_ref :
+    Facts.pendingConsultsRecordedRef = true ∧ Facts.startTimeReadsLastTermination = true := by decide
+
+/-- the model's `pendRef` is that shape: the recorded ref when there is one, else the task's own -/
+theorem pendRef_shape (rj : Job) (t : Task) :
+    pendRef rj t = match findTaskRef rj t.name with
+      | some recorded => recorded
+      | none => t.ref := by
+  unfold pendRef
+  cases findTaskRef rj t.name <;> rfl
+
+/-- **`pending_only_never_ran`** (step level; the statement the repair of F32 makes available, monitor
+`C12:pending-only-never-ran`): a task is reaped as `PendingTimeout` only if the ref RECORDED under its name
+in the Job's status — when there is one — shows neither a running nor a finish timestamp; a task that the
+status records as having begun running is never reaped by this step, whatever its pod reports now (a
+container waiting to be restarted reports no running container).  Only a task that is not recorded at all
+is judged by its own ref. -/
+theorem pending_only_never_ran (s : Sys) (jo : JobObj) (rj : Job) (tasks : List Task) :
+    ∀ c ∈ newCalls s (handlePendingTasks s jo rj tasks).1,
+      ∃ t ∈ tasks, t.name = c.name ∧
+        (∀ r, findTaskRef rj c.name = some r → r.runningTimestamp = none ∧ r.finishTimestamp = none) ∧
+        (findTaskRef rj c.name = none → t.ref.runningTimestamp = none ∧ t.ref.finishTimestamp = none) := by
+  intro c hc
+  obtain ⟨_, T, _, _, t, ht, hn, h1, h2, _, _⟩ := pending_not_early s jo rj tasks c hc
+  refine ⟨t, ht, hn, ?_, ?_⟩
+  · intro r hr
+    rw [← hn] at hr
+    unfold pendRef at h1 h2
+    rw [hr] at h1 h2
+    exact ⟨h1, h2⟩
+  · intro hr
+    rw [← hn] at hr
+    unfold pendRef at h1 h2
+    rw [hr] at h1 h2
+    exact ⟨h1, h2⟩
+
+/-- a task whose recorded ref carries a running timestamp is never reaped by the pending-timeout step -/
+theorem recorded_running_not_reaped (s : Sys) (jo : JobObj) (rj : Job) (tasks : List Task) (r : TaskRef) (n : String)
+    (hr : findTaskRef rj n = some r) (hrun : r.runningTimestamp.isSome = true) :
+    ∀ c ∈ newCalls s (handlePendingTasks s jo rj tasks).1, c.name ≠ n := by
+  intro c hc hn
+  obtain ⟨t, _, _, hrec, _⟩ := pending_only_never_ran s jo rj tasks c hc
+  have := (hrec r (by rw [hn]; exact hr)).1
+  rw [this] at hrun; cases hrun
 
 /-- `T = 0` (or negative, or no template) ⇒ never: the step returns state and Job untouched. -/
 theorem pending_disabled (s : Sys) (jo : JobObj) (rj : Job) (tasks : List Task)
@@ -388,23 +442,25 @@ example :
     getPendingTimeout j s.cfg = some 0 ∧
     newCalls s (handlePendingTasks s ⟨"job", "u", j, true, 1⟩ j [taskOf pendingPod]).1 = [] := by decide
 
-/-- With `T > 0`: every still-pending task past its deadline (and not yet being deleted) gets its
+/-- With `T > 0`: every task that is still pending as far as its judged ref `pendRef rj t` says, past its
+deadline (and not yet being deleted) gets its
 delete call, whatever the faults; every still-pending task whose deadline is in the future arms
 a timer for the Job's key at that deadline (`dueAt`: at least 1 s ahead), so that the pass is
 repeated when it expires. -/
 theorem pending_reaped_or_timer (s : Sys) (jo : JobObj) (rj : Job) (tasks : List Task) (T : Int)
     (hT : getPendingTimeout rj s.cfg = some T) (hpos : 0 < T) :
-    (∀ t ∈ tasks, t.ref.runningTimestamp = none → t.ref.finishTimestamp = none →
-      (t.ref.creationTimestamp.getD zeroTime : Int) + T ≤ s.clock → t.deletionTimestamp = none →
+    (∀ t ∈ tasks, (pendRef rj t).runningTimestamp = none → (pendRef rj t).finishTimestamp = none →
+      ((pendRef rj t).creationTimestamp.getD zeroTime : Int) + T ≤ s.clock → t.deletionTimestamp = none →
       ∃ c ∈ newCalls s (handlePendingTasks s jo rj tasks).1, IsPodDelete c false ∧ c.name = t.name) ∧
-    (∀ t ∈ tasks, t.ref.runningTimestamp = none → t.ref.finishTimestamp = none →
-      s.clock < (t.ref.creationTimestamp.getD zeroTime : Int) + T →
+    (∀ t ∈ tasks, (pendRef rj t).runningTimestamp = none → (pendRef rj t).finishTimestamp = none →
+      s.clock < ((pendRef rj t).creationTimestamp.getD zeroTime : Int) + T →
       TimerBy (handlePendingTasks s jo rj tasks).1.q (jobKey jo)
-        (dueAt s ((t.ref.creationTimestamp.getD zeroTime : Int) + T))) := by
+        (dueAt s (((pendRef rj t).creationTimestamp.getD zeroTime : Int) + T))) := by
   obtain ⟨l, e, hall, _, hon⟩ := handlePendingTasks_ext s jo rj tasks
   obtain ⟨hcov, htim, _⟩ := hon T hT hpos
   rw [e.newCalls]
-  have hp : ∀ t : Task, t.ref.runningTimestamp = none → t.ref.finishTimestamp = none → isPending t = true := by
+  have hp : ∀ t : Task, (pendRef rj t).runningTimestamp = none → (pendRef rj t).finishTimestamp = none →
+      isPending (pendRef rj t) = true := by
     intro t h1 h2; unfold isPending; simp [h1, h2]
   refine ⟨?_, ?_⟩
   · intro t ht h1 h2 hd hdt
@@ -495,7 +551,7 @@ pending timeout reached (graceful), kill condition (graceful), force-delete gate
 theorem pass_deletes_justified (s : Sys) (jo : JobObj) (rj : Job) :
     ∀ c ∈ newCalls s (syncJobTasks s jo rj).1, c.verb = "delete" →
       c.res = "pods" ∧ ∃ s1 rj1 tasks1, syncCreateTasks s jo rj (tasks0 s jo rj) = (s1, some (rj1, tasks1)) ∧
-        ∃ t ∈ tasks1, t.name = c.name ∧ DeleteReason s rj rj1 c t := by
+        ∃ t ∈ tasks1, t.name = c.name ∧ DeleteReason s rj rj1 tasks1 c t := by
   intro c hc hv
   obtain ⟨hr, s1, rj1, tasks1, h1, _, h2⟩ := taskOrigin_delete s jo rj c ((syncJobTasks_origin s jo rj).2 c hc) hv
   exact ⟨hr, s1, rj1, tasks1, h1, h2⟩
@@ -513,7 +569,7 @@ theorem pass_graceful_delete_not_early (s : Sys) (jo : JobObj) (rj : Job) :
   obtain ⟨_, s1, rj1, tasks1, _, hle, t, _, _, hreason⟩ :=
     taskOrigin_delete s jo rj c ((syncJobTasks_origin s jo rj).2 c hc) hv
   cases hreason with
-  | pendingTimeout T _ hT hpos _ _ _ => exact Or.inl ⟨T, hT, hpos⟩
+  | pendingTimeout T _ _ hT hpos _ _ _ _ => exact Or.inl ⟨T, hT, hpos⟩
   | kill rj' _ _ _ hss hk =>
     rcases (shouldKillJob_iff s.clock rj').mp hk with ⟨k, hkt, hkle⟩ | h | h
     · exact Or.inr (Or.inl ⟨k, by rw [← hkt, hss.killTimestamp, hle.killTimestamp], hkle⟩)
